@@ -15,7 +15,8 @@ EXPLANATION = (
     'is created once per session and only ever used through `with`; and every call that mutates the shared deflate '
     'context must lie in the same critical-section *instance* as the write that transmits its output, otherwise '
     'compression order and wire order can differ under context takeover. The discipline is independent of the '
-    'schedule; no interleaving is enumerated.')
+    'schedule; no interleaving is enumerated.'
+    ' Also decided: package-wide isolation (objects created once per class or per function definition - class-level attributes, parameter defaults - are only read), so that no buffer, validator, cache, lock or option table is shared between connections by accident.')
 NOT_DECIDED = 'specific interleavings; fairness; per-thread ordering beyond one-write-per-call'
 ASSUMPTIONS = ['`with lock:` releases on every exit', 'socket.sendall writes its whole argument or raises']
 
